@@ -1046,7 +1046,7 @@ theorem opLoad_isUnion (nmAutosar : Nat) (w : World) (k : Nat) (name : Bytes) (s
     (hp : (runParser S V strict buf w.nextId nmAutosar).1 = .ok (h, kids))
     (rk : Nat → Nat → Nat) (hc : Compat S V rk m.rootHdr m.rootKids kids)
     (w' : World) (s : String) (hl : opLoad S V nmAutosar w k name strict buf = (w', .ok s)) :
-    ∃ kr, IsUnion S V w.nextFile m.rootHdr.id (m.files.map (·.id)) m.rootKids kids kr ∧
+    ∃ kr, IsUnion S V w.nextFile m.rootHdr.id m.rootHdr.files m.rootKids kids kr ∧
       ∃ m', w'.models[k]? = some m' ∧ ∃ base order, m'.rootKids = renumItems base order kr := by
   unfold opLoad at hl
   rw [hm] at hl
